@@ -8,7 +8,7 @@ from .c04 import cursor_calls
 
 PID = "C05"
 META = {
-    "explanation": "Static analysis of PrefixIter / RevPrefixIter on the MIR of the current tree: (R1) each Ok(Some) exit is control-dependent on `key.starts_with(self.prefix)` of exactly the entry being yielded and there is no other success exit that can carry an entry; errors of the cursor are propagated, never folded into Ok(None); (R2) first call = >=-seek on the prefix (forward) / move_on_last_prefix on a copy of the prefix (reverse), later calls = exactly one step; (R3) move_on_last_prefix as a 3-arm table (no successor key -> last entry; successor key found exactly -> one step back; otherwise the current entry); (R4) advance_key as a 3-arm table (increment last byte if it does not overflow, else pop and retry, empty -> None). Soundness of the output on all paths is decided; completeness rests on C02 and on advance_key's value semantics, which R4 pins by shape only. The iterators run on this cursor over files this Writer emits: the shared file-wellformedness and cursor-traversal rules (rules/shared.py) are re-run as necessary conditions.",
+    "explanation": "Static analysis of PrefixIter / RevPrefixIter on the MIR of the current tree: (R1) each Ok(Some) exit is control-dependent on `key.starts_with(self.prefix)` of exactly the entry being yielded and there is no other success exit that can carry an entry; errors of the cursor are propagated, never folded into Ok(None); (R1, cont.) on the yield path no branch-steering field of the iterator is stored with anything but its constructor value, so a fused exhausted-state can only be entered when the range has ended; (R2) first call = >=-seek on the prefix (forward) / move_on_last_prefix on a copy of the prefix (reverse), later calls = exactly one step; (R3) move_on_last_prefix as a 3-arm table (no successor key -> last entry; successor key found exactly -> one step back; otherwise the current entry); (R4) advance_key as a 3-arm table (increment last byte if it does not overflow, else pop and retry, empty -> None). Soundness of the output on all paths is decided; completeness rests on C02 and on advance_key's value semantics, which R4 pins by shape only. The iterators run on this cursor over files this Writer emits: the shared file-wellformedness and cursor-traversal rules (rules/shared.py) are re-run as necessary conditions.",
     "assumptions": ["the seeks of C02", "u8::checked_add, slice::starts_with, Vec::pop contracts"],
 }
 
@@ -117,9 +117,32 @@ def r1_guard(ck, F, d):
             whole = all(_some_payload(y) for y in flat_alts(tup))
             same = whole and cursor_sources(tup) == tested
         ck.ob(R, f"yield-is-tested-entry/{d}", same, "the yielded (key, value) are the two parts of the entry whose key was tested", b, s)
+    _yield_leaves_no_state(ck, R, F, b, d, t_t, f_t)
     # errors are propagated: every cursor call is followed by `?`
     for s, n, t in cursor_calls(b):
         _q(ck, R, b, s, f"{d}/{n}")
+
+
+def _yield_leaves_no_state(ck, R, F, b, d, t_t, f_t):
+    """A call that yields an entry leaves nothing behind but the cursor position: a field that steers a branch of
+    next() (an "exhausted" / fused flag is fine as such, C05-R2 accepts a later state that touches nothing) is, on
+    the starts_with == true path, only ever re-stored with the value the constructor gave it. Otherwise the next call
+    can stop — or skip — although the entry just yielded says nothing about the ones that follow (C05-27)."""
+    from .c03 import mutated_fields
+    adt = "reader::prefix_iter::PrefixIter" if d == "fwd" else "reader::prefix_iter::RevPrefixIter"
+    bad, seen = [], 0
+    for f in sorted(mutated_fields(F, adt)):
+        if f in ("cursor", "prefix") or _flag_switch(b, f) is None:
+            continue
+        inits = {const_val(agg_field_expr(bb_, s, rv, f)) for bb_, s, rv in aggregates(F, adt)}
+        for bb_, site, s_ in field_stores(F, adt, f):
+            if bb_.path != b.path or not (b.dominates(t_t, site.bb) and not b.dominates(f_t, site.bb)):
+                continue
+            seen += 1
+            v = const_val(bb_._expr_of_def((site, "assign", s_["rv"]))) if site.i is not None and "rv" in s_ else None
+            if v is None or inits != {v}:
+                bad.append(f"{f} := {'<computed>' if v is None else v} (constructor: {sorted(map(str, inits))})")
+    ck.ob(R, f"yield-leaves-no-state/{d}", not bad, "on the starts_with == true path no branch-steering field of the iterator is stored with anything but its constructor value" + (f" — {bad}" if bad else f" ({seen} store(s) on that path)"), b)
 
 
 def _filter_idiom(ck, R, F, b, d, anchor):
